@@ -44,7 +44,8 @@ def run(chk: Check, proj: Project) -> None:
     from . import C03
 
     chk.borrow("S7", "fills and deferred children are rendered with the loop state and variable layering of THEIR position: snapshot copy discipline and the position of the captured-variable layer (shared with C03-S6/S9)",
-               lambda sub: (C03.s6(sub, proj, w), C03.s9_forloop_copies(sub, proj, w), C03.s12_layer_frame(sub, proj, w)))
+               lambda sub: (C03.s6(sub, proj, w), C03.s9_forloop_copies(sub, proj, w), C03.s12_layer_frame(sub, proj, w)),
+               only=lambda o: "outer-loop-values-over-nearer-bindings" not in o.construct)  # name shadowing between scopes OUTSIDE the tag: C03 only (F41)
     s9(chk, proj, w)
     s11(chk, proj, w)
     from . import generic
@@ -360,7 +361,14 @@ def s5(chk: Check, proj: Project, w) -> None:
     chk.ob("S5", "components.dynamic:on_render_before:no-double-escape", m.loc(c), isinstance(esc, ast.Constant) and esc.value is False, "slots were already normalised: escape_slots_content=False")
     recv = c.func.value.id if isinstance(c.func, ast.Attribute) and isinstance(c.func.value, ast.Name) else None
     inst = [v for _s, v in assignments(f, recv) if isinstance(v, ast.Call)] if recv else []
-    oki = bool(inst) and norm(kwarg(inst[0], "outer_context") or ast.Constant(value=0)) == "self.outer_context" and norm(kwarg(inst[0], "registry") or ast.Constant(value=0)) == "self.registry" and norm(kwarg(inst[0], "registered_name") or ast.Constant(value=0)) == "self.registered_name"
+    oc = kwarg(inst[0], "outer_context") if inst else None
+    if isinstance(oc, ast.Subscript) and isinstance(oc.slice, ast.Constant) and norm(oc.value) == params(f)[1]:
+        gm, gf = proj.func("components.dynamic", "DynamicComponent.get_context_data")
+        for d in [x for x in ast.walk(gf) if isinstance(x, ast.Dict)]:
+            for k, val in zip(d.keys, d.values):
+                if isinstance(k, ast.Constant) and k.value == oc.slice.value and any(isinstance(x, ast.Call) and last_attr(x.func) == "snapshot_context" and x.args and norm(x.args[0]) == "self.outer_context" for x in ast.walk(val)):
+                    oc = ast.parse("self.outer_context", mode="eval").body  # a snapshot of it (liveness is judged by C03-S10)
+    oki = bool(inst) and norm(oc or ast.Constant(value=0)) == "self.outer_context" and norm(kwarg(inst[0], "registry") or ast.Constant(value=0)) == "self.registry" and norm(kwarg(inst[0], "registered_name") or ast.Constant(value=0)) == "self.registered_name"
     chk.ob("S5", "components.dynamic:on_render_before:instance-inherits-identity", m.loc(inst[0]) if inst else m.loc(f), oki, "the inner instance gets the dynamic component's registered name, outer context and registry")
 
 
